@@ -14,6 +14,7 @@ Import ListNotations.
 From Flocq Require Import Core Relative.
 From SK Require Import Proofs.FloatError.
 From SK Require Import Check.FloatKernelCheck Proofs.FloatRefine.
+From SK Require Import Check.FloatKernelCheck2 Proofs.FloatKernels2.
 Theorem C01_l2_optim_is_residual_sum_of_squares : forall (xs : list R) (s e : nat), (s < e <= length xs)%nat -> l2_cost_optim_R (prefix xs) (prefix (sq xs)) s e = rss (slice s e xs).
 Proof. exact @l2_optim_is_rss. Qed.
 
@@ -130,3 +131,21 @@ Print Assumptions C01_primitive_float_addition_is_binary64_rounding.
 Print Assumptions C01_primitive_float_multiplication_is_binary64_rounding.
 Print Assumptions C01_primitive_float_division_is_binary64_rounding.
 Print Assumptions C01_trace_checker_accepts_ordinary_data.
+
+(** ---- added: statements re-derived from the lemma files by tools/append_props.py ---- *)
+Theorem C01_float_fixed_mean_cost_error : forall (mu : R) (l : list R) (s e : nat), (s <= e)%nat -> INR e * u53 <= 1 / 100 -> Rabs (l2_fixed_float53 mu l s e - l2_cost_fixed_R (prefix l) (prefix (sq l)) mu s e) <= (204 / 100 * INR e + 6) * u53 * l2_fixed_scale mu l s e.
+Proof. exact @l2_fixed_float53_error. Qed.
+
+Theorem C01_float_fixed_mean_cost_vs_sum_of_squared_errors : forall (mu : R) (l : list R) (s e : nat), (s <= e <= length l)%nat -> INR e * u53 <= 1 / 100 -> Rabs (l2_fixed_float53 mu l s e - sse mu (slice s e l)) <= (204 / 100 * INR e + 6) * u53 * l2_fixed_scale mu l s e.
+Proof. exact @l2_fixed_float53_vs_sse. Qed.
+
+Theorem C01_primitive_float_fixed_mean_program_refines_rounding_model : forall (mu : PrimFloat.float) (l : list PrimFloat.float) (s e : nat), l2_fixed_trace_ok mu l s e = true -> FR (l2_cost_fixed_F mu l s e) = l2_fixed_float53 (FR mu) (map FR l) s e.
+Proof. exact @l2_cost_fixed_F_refines. Qed.
+
+Theorem C01_primitive_float_fixed_mean_cost_within_bound : forall (mu : PrimFloat.float) (l : list PrimFloat.float) (s e : nat), l2_fixed_trace_ok mu l s e = true -> INR e * u53 <= 1 / 100 -> Rabs (FR (l2_cost_fixed_F mu l s e) - sse (FR mu) (slice s e (map FR l))) <= (204 / 100 * INR e + 6) * u53 * l2_fixed_scale (FR mu) (map FR l) s e.
+Proof. exact @l2_cost_fixed_F_vs_sse. Qed.
+
+Print Assumptions C01_float_fixed_mean_cost_error.
+Print Assumptions C01_float_fixed_mean_cost_vs_sum_of_squared_errors.
+Print Assumptions C01_primitive_float_fixed_mean_program_refines_rounding_model.
+Print Assumptions C01_primitive_float_fixed_mean_cost_within_bound.
